@@ -76,7 +76,9 @@ def gen_layer_case(rng):
         elif k < 0.82:
             ins.append([7])
         elif k < 0.92:
-            sid = rng.choice([0, 1, 2, 3, 4, 5, 6, 7])
+            # stream ids the peer may use: small ones, and the ends of the 16-bit range (65535 is a legal SCTP stream
+            # although createDataChannel refuses it as a negotiated id)
+            sid = rng.choice([0, 1, 2, 3, 4, 5, 6, 7, 0, 1, 2, 3, 65535, 65534, 1000])
             pp = rng.choice(PPIDS)
             if pp == 50:
                 kind = rng.random()
@@ -343,6 +345,11 @@ class C13(Check):
                         RTCDataChannel.__init__ = init_hook
                         try:
                             await t._data_channel_receive(inp[1], inp[2], bytes(inp[3]))
+                        except KeyError:
+                            raise
+                        except Exception as exc:  # noqa -- whatever escapes here escapes the SCTP receive path
+                            events.append([10, 5])
+                            last_exc = type(exc).__name__
                         finally:
                             RTCDataChannel.__init__ = orig_init
                     elif k == 9:
@@ -416,6 +423,9 @@ class C13(Check):
                 for e in evs:
                     if e[0] == 10 and e[1] == 3:
                         return ("keyerror-in-close", "KeyError escaped the data-channel layer")
+                    if e[0] == 10 and e[1] == 5:
+                        return ("receive-raised", "an exception escaped _data_channel_receive on a received message "
+                                                  "(it escapes the SCTP receive path and closes the transport)")
                     if e[0] in (6, 7) and not 0 <= e[1] < 2 ** 32:
                         return ("reconfig-sequence-out-of-range", f"a RE-CONFIG parameter carries sequence number {e[1]}, "
                                                                   "which does not fit its 32-bit field (serialising it raises)")
